@@ -42,10 +42,14 @@ for _k in CROPS:
         "Zmax": float(_v.get("Zmax")),
         "MaturityCD": int(_v.get("MaturityCD") or 130),
         "YldWC": _v.get("YldWC"),
+        "WPy": float(_v.get("WPy") or 100),
+        "Determinant": int(_v.get("Determinant") or 0),
     }
 CAL_CROPS = [c for c in CROPS if CROP_INFO[c]["CalendarType"] == 1]
 GDD_CROPS = [c for c in CROPS if CROP_INFO[c]["CalendarType"] == 2]
 HIGH_CCX_CROPS = [c for c in CROPS if CROP_INFO[c]["CCx"] > 0.96]
+WPY_CROPS = [c for c in CROPS if CROP_INFO[c]["WPy"] < 100 and CROP_INFO[c]["YldWC"]]
+INDETERMINATE_CROPS = [c for c in CROPS if CROP_INFO[c]["Determinant"] == 0 and CROP_INFO[c]["YldWC"]]
 
 SOILS = ["Clay", "ClayLoam", "Default", "Loam", "LoamySand", "Sand", "SandyClay", "SandyClayLoam",
          "SandyLoam", "Silt", "SiltClayLoam", "SiltLoam", "SiltClay", "Paddy", "ac_TunisLocal"]
